@@ -47,7 +47,7 @@ DROP_FLAGS = ("--config-file", "--cache", "--no-incremental", "--incremental", "
               "--shadow-file", "--custom-typeshed-dir", "--custom-typing-module", "--python-executable",
               "--no-silence-site-packages", "--bazel", "--package-root", "--find-occurrences", "--junit-format",
               "--fixed-format-cache", "--no-fixed-format-cache", "--verbose", "-v", "--dump", "--stats", "--raise-exceptions",
-              "--export-ref-info", "--timing-stats", "--line-checking-stats", "--native-parser", "--pretty",
+              "--export-ref-info", "--timing-stats", "--line-checking-stats", "--native-parser", "--pretty", "-O", "--output",
               "--soft-error-limit")
 
 
@@ -61,7 +61,7 @@ def clean_flags(flags: list[str]) -> list[str]:
             continue
         if f in REPORT_FLAGS or f in ("--shadow-file", "--package-root", "--junit-xml", "--config-file", "--cache-dir",
                                       "--custom-typeshed-dir", "--custom-typing-module", "--python-executable",
-                                      "--cache-map", "-n", "--num-workers", "--find-occurrences", "--junit-format"):
+                                      "--cache-map", "-n", "--num-workers", "--find-occurrences", "--junit-format", "-O", "--output"):
             skip = 2 if f == "--shadow-file" else 1
             continue
         if f.split("=")[0] in DROP_FLAGS or f.split("=")[0] in REPORT_FLAGS:
@@ -76,7 +76,7 @@ def gen_cases(ctx: common.Ctx, n_fix: int, n_ts: int) -> Iterator[dict[str, Any]
     rng = random.Random("C20-core-order")   # core workload is seed-independent: known crashes are listed per mutant
     rng.shuffle(cases)
     texts = [c.main for c in cases[:400]]
-    ts_cases = [c for c in cases if not corpus.uses_fixture_only_features(c) and not c.cmd]
+    ts_cases = [c for c in cases if not corpus.uses_fixture_only_features(c) and not c.cmd and not corpus.has_config_files(c)]
     made = 0
     i = 0
     while made < n_ts and ts_cases and i < len(ts_cases) * 50:
@@ -115,7 +115,7 @@ def explore_cases(ctx: common.Ctx, n: int) -> Iterator[dict[str, Any]]:
 
 def daemon_cases(ctx: common.Ctx, n: int) -> Iterator[dict[str, Any]]:
     cases = [c for c in corpus.load(["check-*.test", "fine-grained.test"])
-             if not corpus.uses_fixture_only_features(c) and not c.cmd]
+             if not corpus.uses_fixture_only_features(c) and not c.cmd and not corpus.has_config_files(c)]
     import random
     rng = random.Random("C20-core-daemon")
     rng.shuffle(cases)
@@ -167,7 +167,9 @@ def run(ctx: common.Ctx) -> None:
             def handle(t: dict[str, Any], r: dict[str, Any], rerun: bool = False) -> None:
                 ctx.count()
                 mode = t["_mode"]
-                cid = ("x:" if t.get("_explore") else "") + f"{t['_case']}#{t['_idx']}:{mode}"
+                # content-based case id: stable under re-ordering / filtering of the workload
+                body = t["args"].get("versions") or t["args"].get("files") or t["args"].get("main")
+                cid = ("x:" if t.get("_explore") else "") + f"{t['_case']}:{common.fingerprint(body)[:10]}:{mode}"
                 if r.get("timeout"):
                     if rerun:
                         ctx.violation(f"hang:{mode}", "did not terminate within the watchdog (re-run alone)",
